@@ -1,0 +1,13 @@
+//go:build verif
+
+package types
+
+// Contracts for the verification machinery in /verif (comment-only file; no code).
+//
+// verif:import host github.com/teleport-network/teleport/x/xibc/core/host
+// verif:import clienttypes github.com/teleport-network/teleport/x/xibc/core/client/types
+
+// ---- every stored consensus state is visited under the height it was stored at (C19) ----
+// verif:func IterateConsensusStateAscending
+//@ loop 1 forkey rev uint64, h uint64 :: host.ConsensusStateKey(clienttypes.NewHeight(rev, h))
+//@ loop 1 continue [parse-back] ncalls("cb") == 1 && as(callarg("cb", 0), clienttypes.Height).RevisionNumber == rev && as(callarg("cb", 0), clienttypes.Height).RevisionHeight == h
